@@ -1,0 +1,8 @@
+//go:build !verif
+
+// Package verifhook provides named instrumentation points for external verification
+// harnesses.  Without the "verif" build tag every function is an empty, inlinable no-op.
+package verifhook
+
+// Point marks a named site; it does nothing unless built with the "verif" tag.
+func Point(site string, args ...string) {}
